@@ -25,6 +25,7 @@
 #include <cstddef>
 #include <cstdint>
 #include <memory>
+#include <utility>
 
 ////////////////////////////////////////////////////////////////////////////////
 namespace pika::threads::detail {
@@ -99,13 +100,16 @@ namespace pika::threads::detail {
 
         while (!exit_funcs_.empty())
         {
+            // take the callback off the list before running it without the lock: another callback
+            // (e.g. the one thread::join registers) may be pushed to the front meanwhile
+            auto f = std::move(exit_funcs_.front());
+            exit_funcs_.pop_front();
             {
                 pika::detail::unlock_guard<std::unique_lock<pika::detail::spinlock>> ul(l);
                 PIKA_VERIF_POINT("exitcb.run.before", this, 0, 0);
-                if (!exit_funcs_.front().empty()) exit_funcs_.front()();
+                if (!f.empty()) f();
                 PIKA_VERIF_POINT("exitcb.run.after", this, 0, 0);
             }
-            exit_funcs_.pop_front();
         }
         ran_exit_funcs_ = true;
     }
